@@ -24,6 +24,8 @@ def local_names(t, ev):
         t2 = re.sub(r"^utils::\w+::", "utils.", t2)
         t2 = t2.replace("<std::iter::Peekable<std::str::Chars<'_>> as iter::Iterator>::", "Chars.")
         t2 = t2.replace("<std::iter::Peekable<std::str::Chars<'_>> as iter::Peekable::<I>>::", "Chars.")
+        if t2 in ("iter::Peekable::peek", "iter::Peekable::next_if", "iter::Peekable::next_if_eq"):
+            t2 = "Chars." + t2.rsplit("::", 1)[1]
         t2 = t2.replace("<&mut std::iter::Peekable<std::str::Chars<'_>> as iter::Iterator>::", "CharsRef.")
         t2 = t2.replace("<std::iter::Take<&mut std::iter::Peekable<std::str::Chars<'_>>> as iter::Iterator>::", "TakeRef.")
         t2 = t2.replace("<std::iter::Take<std::iter::Peekable<std::str::Chars<'_>>> as iter::Iterator>::", "Take.")
